@@ -21,7 +21,7 @@ func main() {
 	c.ReplayFallback()
 	swagger := c.BuildSwagger()
 	atoms := specgen.SchemaAtoms()
-	positions := []string{"def", "reqprop", "optprop", "items"}
+	positions := []string{"def", "reqprop", "optprop", "items", "aliasprop"}
 	if c.Thorough() {
 		positions = specgen.Positions
 	}
